@@ -226,6 +226,9 @@ def generate(repo):
     for st in cc.body:
         if st is not blk and isinstance(st, (ast.If, ast.Try, ast.With, ast.For, ast.While)):
             _need(not (st.lineno <= mh[0] <= st.end_lineno), "host key block nested under another statement")
+    # a refusing policy refuses by raising: nothing in the host key block may catch exceptions
+    _need(not any(isinstance(n, (ast.Try, ast.With)) for n in ast.walk(blk)),
+          "SSHClient.connect: the host key block contains a try / with (a policy's exception must propagate)")
     inner = [n for n in ast.walk(blk) if isinstance(n, ast.If) and n is not blk]
     _need(sorted(ast.unparse(n.test) for n in inner) ==
           sorted(["our_server_keys is None", "our_key != server_key", "our_key is None"]),
